@@ -25,21 +25,21 @@ def cyc_year(io, ylo, yhi, name="y"):
     return symex.Int(add(mul(400, c.t), r.t), "i32")
 
 
-def ymd_of_day(io, lo, hi):
+def ymd_of_day(io, lo, hi, P="C01"):
     """for all epoch days d: ymd(d) is a valid date and the real day count maps it back to d"""
     d = cyc_day(io, lo, hi)
     r = io.call("ymd_from_epoch_days", [d], native=("ymd_from_epoch_milliseconds", ("agg", ["i32", "u8", "u8"]),
                                                      [symex.Int(mul(d.t, 86_400_000), "i64")]))
     y, m, dd = (f.t for f in r.f)
-    io.witness("C01.ymd.reach")
-    io.prove("C01.ymd.valid_date", R.valid_date(y, m, dd))
-    io.prove("C01.ymd.inverse_of_reference_day_count", eq(R.epoch_days(y, m, dd), d.t), hyp=R.valid_date(y, m, dd))
+    io.witness(P + ".ymd.reach")
+    io.prove(P + ".ymd.valid_date", R.valid_date(y, m, dd))
+    io.prove(P + ".ymd.inverse_of_reference_day_count", eq(R.epoch_days(y, m, dd), d.t), hyp=R.valid_date(y, m, dd))
     e = io.call("neri_schneider::epoch_days_from_gregorian_date", list(r.f), native=("epoch_days_from_gregorian_date", "i32"))
-    io.prove("C01.ymd.round_trip_through_day_count", eq(e.t, d.t))
-    io.obligations("C01.ymd")
+    io.prove(P + ".ymd.round_trip_through_day_count", eq(e.t, d.t))
+    io.obligations(P + ".ymd")
 
 
-def day_of_ymd(io, ylo, yhi):
+def day_of_ymd(io, ylo, yhi, P="C01"):
     """for all valid dates: epoch_days_from_gregorian_date = reference day count"""
     y = cyc_year(io, ylo, yhi)
     m = io.int("m", "u8", 1, 12)
@@ -47,9 +47,9 @@ def day_of_ymd(io, ylo, yhi):
     io.assume(le(d.t, R.dim(y.t, m.t)))
     e = io.call("neri_schneider::epoch_days_from_gregorian_date", [y, m, d],
                 native=("epoch_days_from_gregorian_date", "i32"))
-    io.witness("C01.days.reach")
-    io.prove("C01.days.equals_reference", eq(e.t, R.epoch_days(y.t, m.t, d.t)))
-    io.obligations("C01.days")
+    io.witness(P + ".days.reach")
+    io.prove(P + ".days.equals_reference", eq(e.t, R.epoch_days(y.t, m.t, d.t)))
+    io.obligations(P + ".days")
 
 
 def year_facts(io, ylo, yhi):
@@ -65,23 +65,23 @@ def year_facts(io, ylo, yhi):
     io.obligations("C01.year")
 
 
-def balance(io, ylo, yhi, dlo, dhi):
+def balance(io, ylo, yhi, dlo, dhi, P="C01", tlo=D_LO, thi=D_HI):
     """IsoDate::balance / iso_date_to_epoch_days: first of month y-m plus (day-1) days"""
     y = cyc_year(io, ylo, yhi)
     m = io.int("m", "i32", 1, 12)
     day = io.int("day", "i32", dlo, dhi)
     target = add(R.epoch_days(y.t, m.t, 1), sub(day.t, 1))
-    io.assume(and_(le(D_LO, target), le(target, D_HI)))
+    io.assume(and_(le(tlo, target), le(target, thi)))
     e = io.call("iso::iso_date_to_epoch_days", [y, m, day], native=("iso_date_to_epoch_days", "i32"))
-    io.prove("C01.balance.epoch_days", eq(e.t, target))
+    io.prove(P + ".balance.epoch_days", eq(e.t, target))
     b = io.call(("IsoDate", None, "balance"), [y, m, day], native=("iso_date_balance", ("agg", ["i32", "u8", "u8"])))
     # balance must be exactly ymd(epoch day computed above); ymd itself is covered for every day by ymd_of_day
     r = io.call("ymd_from_epoch_days", [e], native=("ymd_from_epoch_milliseconds", ("agg", ["i32", "u8", "u8"]),
                                                      [symex.Int(mul(e.t, 86_400_000), "i64")]))
-    io.witness("C01.balance.reach")
-    io.prove("C01.balance.is_ymd_of_target_day",
+    io.witness(P + ".balance.reach")
+    io.prove(P + ".balance.is_ymd_of_target_day",
              and_(*[eq(p.t, q.t) for p, q in zip(b.f, r.f)]))
-    io.obligations("C01.balance")
+    io.obligations(P + ".balance")
 
 
 def order(io, ylo, yhi):
